@@ -323,6 +323,34 @@ func (d c09) Execute(c *core.Case) *core.Result {
 		for f := range byzSeen {
 			feats = append(feats, f)
 		}
+		if exp == mustReject {
+			// can the known cross-app pooling explain an acceptance? Only if the first entry the model
+			// rejects would meet its rule when logins are pooled across trusted apps
+			pos := lg.PositionsForRef(rec.Op.Ref)
+			switch modeOf(&rec.Op) {
+			case "latest":
+				pos = pos[len(pos)-1:]
+			case "from":
+				keep := []int{}
+				for _, p := range pos {
+					if p >= rec.FromPos {
+						keep = append(keep, p)
+					}
+				}
+				pos = keep
+			}
+			for _, p := range pos {
+				if lg.W.Entries[p].Kind == "reference" && lg.Revoked(p) {
+					continue
+				}
+				if !lg.Decide(p).Authorized {
+					if lg.PooledAuthorizes(p) {
+						feats = append(feats, "cross-app-pooling-explains")
+					}
+					break
+				}
+			}
+		}
 		if strings.HasPrefix(rec.Op.Ref, "refs/tags/") {
 			res.Stat(fmt.Sprintf("tag_verifications_expectation_%d(1=accept,2=reject,0=unspecified)", exp), 1)
 			if exp == mustAccept && rec.Verdict.Class == "accept" {
